@@ -20,8 +20,8 @@
 (***************************************************************************)
 EXTENDS Poly, Json, IOUtils
 Traces == ndJsonDeserialize(IOEnv.QV_TRACES)
-VARIABLES tid, l, minus, t, j, k, bad
-vars == <<tid, l, minus, t, j, k, bad>>
+VARIABLES tid, l, minus, t, j, k, bad, pk    \* pk: <<kernel polynomial, user polynomial>> of the trace, computed once in Init
+vars == <<tid, l, minus, t, j, k, bad, pk>>
 Tr == Traces[tid]
 N == Tr.N
 Spins == 0..(N - 1)
@@ -43,15 +43,14 @@ QusoPoly(r) == LET pairs == {<<i, n>> \in (0..(r.N-1)) \X (0..(r.N-1)) : i < n}
 PusoKeys(r) == [q \in 1..Len(r.nc) |-> SubSeq(r.tm, PrefixSum(r.nc, q - 1) + 1, PrefixSum(r.nc, q))]
 PusoPoly(r) == FromRawS([q \in 1..Len(r.nc) |-> <<PusoKeys(r)[q], r.cp[q]>>])
 KernelPolyOf(r) == IF r.kernel = "quso" THEN QusoPoly(r) ELSE PusoPoly(r)
-KP == TLCEval([i \in 1..Len(Traces) |-> KernelPolyOf(Traces[i])])
-UP == TLCEval([i \in 1..Len(Traces) |-> FromRawS(Traces[i].user)])
-Model == KP[tid]
+Model == pk[1]
+UserP == pk[2]
 \* marshalling clauses (evaluated once per record, at the first event)
 PiFun(r) == [i \in 0..(r.N - 1) |-> r.pi[i + 1]]
 MarshalOKr(i) == LET r == Traces[i] IN
                  /\ Len(r.pi) = r.N /\ Cardinality(ToSet(r.pi)) = r.N
                  /\ (r.kernel = "quso" => QusoSym(r))
-                 /\ Relabel(KP[i], PiFun(r)) = WoOffset(UP[i])
+                 /\ Relabel(Model, PiFun(r)) = WoOffset(UserP)
                  /\ (r.matrix => \A x \in 0..(r.N - 1) : r.pi[x + 1] = x)
 
 Flip(mi, i) == IF i \in mi THEN mi \ {i} ELSE mi \cup {i}
@@ -86,11 +85,12 @@ CheckE == IF Ev.k # k THEN "AnnealOrder"
           ELSE IF Ev.val # EvalS(Model, minus) THEN "KernelValue"
           ELSE IF k >= Len(Tr.api) THEN "ResultCount"
           ELSE IF \E x \in Spins : ApiVal(Api(Tr, k).st, Tr.pi[x + 1]) # Ev.st[x + 1] THEN "ApiState"
-          ELSE IF Api(Tr, k).val # Ev.val + Offset(UP[tid]) THEN "ApiValue"
+          ELSE IF Api(Tr, k).val # Ev.val + Offset(UserP) THEN "ApiValue"
           ELSE ""
-Init == tid \in 1..Len(Traces) /\ l = 1 /\ minus = {} /\ t = 0 /\ j = 0 /\ k = 0 /\ bad = ""
+Init == /\ tid \in 1..Len(Traces) /\ l = 1 /\ minus = {} /\ t = 0 /\ j = 0 /\ k = 0 /\ bad = ""
+        /\ pk = <<KernelPolyOf(Traces[tid]), FromRawS(Traces[tid].user)>>
 Next == /\ l <= Len(Tr.ev) /\ bad = ""
-        /\ l' = l + 1 /\ tid' = tid
+        /\ l' = l + 1 /\ tid' = tid /\ pk' = pk
         /\ CASE Ev.e = "A" -> /\ bad' = CheckA /\ minus' = MinusOf(Ev.st) /\ t' = 0 /\ j' = 0 /\ k' = k
              [] Ev.e = "S" -> /\ bad' = CheckS
                               /\ minus' = IF Ev.acc THEN Flip(minus, Ev.i) ELSE minus
@@ -116,7 +116,7 @@ Reproducible == Done => (Tr.api2 = Tr.api /\ Tr.ev2_equal)
 \* at temperature zero throughout, every result is at most the value of the supplied initial state
 AllZero == \A q \in 1..Len(Tr.tpos) : ~Tr.tpos[q]
 ZeroTempNeverWorse == (Done /\ AllZero /\ Len(Tr.init) > 0) =>
-                         \A a \in 1..Len(Tr.api) : Tr.api[a].val <= EvalS(Model, MinusOf(Tr.init)) + Offset(UP[tid])
+                         \A a \in 1..Len(Tr.api) : Tr.api[a].val <= EvalS(Model, MinusOf(Tr.init)) + Offset(UserP)
 NoRaise == Tr.raised = "" \/ (PrintT(<<"QVVIOL", "NoRaise", tid, 0>>) /\ FALSE)
 Representable == Tr.badnum = "" \/ (PrintT(<<"QVVIOL", "Representable", tid, 0>>) /\ FALSE)
 WholeCall == (AllAnnealsTraced /\ Reproducible /\ ZeroTempNeverWorse) \/ (PrintT(<<"QVVIOL", "WholeCall", tid, l - 1>>) /\ FALSE)
